@@ -30,7 +30,8 @@ ASSUMPTIONS = [
 ]
 MAPPINGS = ["low", "low2", "high"]
 DEFINES = [[], ["DEFA=5"], ["DEFA=0x1234"], ["DEFA=7", "DEFB=DEFA+0x19", "DEFC=0"]]
-WEIGHTS = dict(ins=6, data=5, label=4, block=1.5, scope=1, macro=0.8, call=1.5, for_=1, if_=0.6, assign=1, sym=0.8, org=1.2, reloc=0.3, ascii=0.6, incbin=0.4, branch=0.0, include=0.5)
+WEIGHTS = dict(ins=6, data=5, label=4, block=1.5, scope=1, macro=0.8, call=1.5, for_=1, if_=0.6, assign=1, sym=0.8, org=1.2, reloc=0.3, ascii=0.6, incbin=0.4, branch=0.0, include=0.5,
+               table=0.2, text=0.4, include_ips=0.2)
 
 
 def plan(tier: str, seed: int) -> list[dict]:
